@@ -16,10 +16,11 @@
   (gene symbols, notes, products, the random `gnl|lab|XXXXXXXXXXXX` identifiers) is carried as data
   (`Feature.quals`), not derived: C17 does not speak about it and `random` is outside the model.
 
-  Internal errors (Python exceptions the library does not document: StopIteration out of
-  `has_start_codon_in_specific_translation_table` on a codon-less CDS — F-C19e) have no constructor in
-  `Base.Err`; they are `Fail.internal`.  (F-C17b, AttributeError on `transcript_type.name` of a type-less
-  non-coding transcript, was repaired in /repo ec7cc09; the model follows the repaired code.)  Tied to the source by the correspondence run of every check (ops `locstr`, `quals`,
+  Internal errors (Python exceptions the library does not document) have no constructor in `Base.Err`; they
+  are `Fail.internal`.  The two the pinned tree had on this path are repaired and the model follows the repaired
+  code: F-C19e (StopIteration out of `has_start_codon_in_specific_translation_table` on a codon-less CDS,
+  /repo 7b698bf: the predicate answers False) and F-C17b (AttributeError on `transcript_type.name` of a type-less
+  non-coding transcript, /repo ec7cc09: `ncRNA_class` is "other").  Tied to the source by the correspondence run of every check (ops `locstr`, `quals`,
   `cdsfeat`, `tblgene`, `locustags`).
 -/
 import BioCantor.Model.CDS
@@ -249,8 +250,10 @@ def cdsFlags (c : CDS) (table : Int) : RT (Nat × Bool × Bool) := do
     | f :: _ => pure f
     | [] => throw (.internal "StopIteration")
   let codonStart := frame.value + 1
+  -- `first_codon is not None and first_codon.is_start_codon_in…` (/repo 7b698bf; before that repair `next()` let
+  -- StopIteration escape on a codon-less CDS — F-C19e): `none` = no first codon = "has no start codon"
   let si ← match ← liftR (hasStartCodonIn c table) with
-    | none => throw (.internal "StopIteration")
+    | none => pure true
     | some b => pure (!b)
   let ei ← (if (c.loc.len : Int) % 3 ≠ codonStart - 1 then pure true
             else do let v ← liftR (hasValidStop c); pure (!v))
